@@ -120,7 +120,7 @@ def copy_source(dst):
         shutil.rmtree(bd)
 
 
-def run_build(ctx, cfg, tag="", tap=True, prior=None, src_mutator=None, keep_src=False):
+def run_build(ctx, cfg, tag="", tap=True, prior=None, src_mutator=None, keep_src=False, bindir=None, extra_env=None, timeout=300):
     """One real prebuild run. prior: a directory to place as .build before the run
     (history); src_mutator(srcdir): edits the scratch copy of the source before building."""
     name = cfg.id + (("." + tag) if tag else "")
@@ -142,10 +142,11 @@ def run_build(ctx, cfg, tag="", tap=True, prior=None, src_mutator=None, keep_src
         os.makedirs(tapdir)
         e["VERIF_TAP_DIR"] = tapdir
     import signal
-    p = subprocess.Popen([os.path.join(ctx.bins, "prebuild")] + cfg.args(), cwd=src, env=e,
+    e.update(extra_env or {})
+    p = subprocess.Popen([os.path.join(bindir or ctx.bins, "prebuild")] + cfg.args(), cwd=src, env=e,
                          stdout=subprocess.PIPE, stderr=subprocess.STDOUT, start_new_session=True)
     try:
-        out, _ = p.communicate(timeout=300)
+        out, _ = p.communicate(timeout=timeout)
         rc, log = p.returncode, out.decode("utf-8", "replace")
     except subprocess.TimeoutExpired:
         try:
